@@ -206,6 +206,83 @@ def select_pass(chk, alljobs, tie, env):
     chk.compare(tie, ops, impl, model, kind=kind)
 
 
+# --- the command line: `gopherjs build --tags "..."` and what really ends up in the program ---------------------------------
+CLI_TAGS = ["foo", "bar", "api.v2", "v2", "api", "x.y.z", "go1.21", "go1.99", "feature_1", "f1", "Ünïcode", "linux", "wasm",
+            "cgo", "gopherjs_debug", "nonetgo", "osusergo", "purego2"]
+
+
+def gen_cli_program(rng, idx):
+    """a main package whose files register themselves in init(); every file carries a constraint over the CLI tag vocabulary,
+    the always-on tags and the environment tags. Returns files, user tag list."""
+    vocab = CLI_TAGS + ["js", "ecmascript", "gc", "gopherjs", "netgo", "purego", "math_big_pure_go", "go1.20", "go1.1"]
+    tags = [t for t in CLI_TAGS if rng.random() < 0.3]
+    if not any("." in t for t in tags) and rng.random() < 0.7:
+        tags.append(rng.choice(["api.v2", "x.y.z", "go1.21"]))
+    rng.shuffle(tags)
+    files = {"go.mod": "module c18cli\n\ngo 1.20\n",
+             "main.go": "package main\n\nvar reg []string\n\nfunc main() {\n\tfor _, r := range reg {\n\t\tprintln(r)\n\t}\n\tprintln(\"end\")\n}\n"}
+
+    def expr(depth):
+        if depth == 0 or rng.random() < 0.35:
+            return ("tag", rng.choice(vocab))
+        k = rng.random()
+        if k < 0.3:
+            return ("not", expr(depth - 1))
+        return ("and" if k < 0.65 else "or", expr(depth - 1), expr(depth - 1))
+    for k in range(rng.randrange(5, 11)):
+        suf = rng.choice(["", "", "", "_js", "_wasm", "_linux", "_ecmascript", "_js_wasm", "_foo", "_api"])
+        name = "f%d%s.go" % (k, suf)
+        e = expr(rng.randrange(0, 3))
+        hdr = "//go:build %s\n\n" % render(e) if rng.random() < 0.85 else ""
+        files[name] = hdr + "package main\n\nfunc init() { reg = append(reg, \"%s\") }\n" % name
+    return files, tags
+
+
+def cli_pass(chk, tier, env):
+    """Builds generated main packages with the real command line (`gopherjs build --tags "<space separated>"`), runs them and
+    reads which files registered themselves; the same directory goes through the Import harness for the file descriptions the
+    model needs. CLI-observed selection vs model, per file."""
+    import shutil, subprocess
+    from . import c17
+    cli = c17.build_cli()
+    n = 16 if tier == "thorough" else 5
+    sc = C.scratch("gvc18cli")
+    try:
+        progs_ = [gen_cli_program(chk.rng, i) for i in range(n)]
+        jobs = [{"id": "c%d" % i, "tags": tags, "files": {k: v for k, v in files.items() if k != "go.mod"}} for i, (files, tags) in enumerate(progs_)]
+        outs = C.run_gvh_lines(["select"], [json.dumps(j) for j in jobs], name="gvh_c18", extra_env=env, timeout=1200)
+        ops, impl = [], []
+        for i, ((files, tags), o) in enumerate(zip(progs_, outs)):
+            r = json.loads(o)
+            d = os.path.join(sc, "p%d" % i)
+            os.makedirs(d)
+            for k, v in files.items():
+                open(os.path.join(d, k), "w").write(v)
+            e = C.env()
+            e.update({"XDG_CACHE_HOME": os.path.join(sc, "cache"), "HOME": os.path.join(sc, "cache"), "GOOS": "", "GOARCH": ""})
+            p = subprocess.run([cli, "build", "--tags", " ".join(tags), "-o", "out.js", "."], cwd=d, env=e, capture_output=True, text=True, timeout=600)
+            if p.returncode != 0:
+                raise RuntimeError("generated CLI program does not build: %s\n%s" % (p.stderr[-800:], json.dumps(files)[:1500]))
+            q = subprocess.run(["node", "out.js"], cwd=d, capture_output=True, text=True, timeout=60)
+            got = set(q.stdout.split())
+            if "end" not in got:
+                raise RuntimeError("generated CLI program did not run: %s" % (q.stderr[-500:]))
+            names, mops = model_lines("user", tags, r.get("desc") or [])
+            for nm, op in zip(names, mops):
+                if nm == "main.go":
+                    continue
+                ops.append(op + "  # cli --tags %r" % " ".join(tags))
+                impl.append("go=%d js=0" % (1 if nm in got else 0))
+            chk.count("cli-programs")
+            for t in tags:
+                if "." in t:
+                    chk.count("cli-tags:dotted")
+        model = C.run_driver("C18", [o.split("  # ")[0] for o in ops])
+        chk.compare("select-cli", ops, impl, model, kind=lambda o, a: "cli:" + a)
+    finally:
+        shutil.rmtree(sc, ignore_errors=True)
+
+
 def run(tier, seed):
     chk = C.Check("C18", tier, seed)
     chk.rule = ("generated package directories (files with //go:build expressions over a 31-tag vocabulary nested to depth 3, "
@@ -278,6 +355,7 @@ def run(tier, seed):
         select_pass(chk, sib + std_sib, "select-sibling-of-goroot", env_sib)
     finally:
         shutil.rmtree(sc, ignore_errors=True)
+    cli_pass(chk, tier, env_clean)
     return chk.finish()
 
 
